@@ -8,6 +8,15 @@ list of transactions; every demo query is answered from it, and the lower storag
 (iterator, loads, file bytes, blob files) before/after every call made through the demo storage.
 `random.randint` is scripted in ZODB.DemoStorage's namespace so new_oid draws are inputs.
 
+Further real-code sections (oracle only): blob files through blob-capable layers; overlapping commits
+(a gate on the demo storage's commit lock lets a second committer finish a whole commit while the first one
+waits inside tpc_begin, plus two committer threads under harness/sched.py): commit tids strictly increase
+in commit order, lastTransaction() is the last commit, the stack reads as the merged history
+(C16:commit-tid-order; the model's `begin` chooses the tid under the commit lock, Props.C16
+.reachable_tid_ordered); close(): a pushed layer discarded by close()/DB.close() leaves everything below
+open, answering identically and able to commit, and close_base_on_close / close_changes_on_close
+(None/True/False x given/implicit) close exactly what the documentation says (C16:close).
+
 Excluded points (hypotheses of the Lean theorems that the code does not enforce) are run as
 separate probes on the real code; each yields exactly one signature:
   C16:demo-tid-below-base (repaired in /repo: regression probe), C16:undo-over-base-loadbefore,
@@ -1258,6 +1267,318 @@ def run_blob_case(rng, tmp):
     return bad, log
 
 
+# ---------------------------------------------------------------- overlapping commits (schedules)
+class StepClock:
+    """time.time(): every call reads the next minute (mode 'step'), or never moves (mode 'stall')"""
+
+    def __init__(self, mode, k0):
+        self.mode, self.k = mode, k0
+
+    def __call__(self):
+        if self.mode == 'step':
+            self.k += 1
+        return clock_time(UNIT * self.k)
+
+
+class GatedLock:
+    """the demo storage's commit lock; when armed, the next acquire() first lets ANOTHER committer run a
+    complete commit -- the schedule 'A is inside tpc_begin and waits for the commit lock while B commits'
+    (A holds no lock at that point, so running B inline is exactly that interleaving)"""
+
+    def __init__(self, lock):
+        self.lock, self.action = lock, None
+
+    def acquire(self, *a, **k):
+        if self.action is not None:
+            act, self.action = self.action, None
+            act()
+        return self.lock.acquire(*a, **k)
+
+    def release(self):
+        return self.lock.release()
+
+    def __enter__(self):
+        self.acquire()
+        return self
+
+    def __exit__(self, *a):
+        self.release()
+
+    def __getattr__(self, name):
+        return getattr(self.lock, name)
+
+
+def judge_history(top, H, marks, kinds):
+    """the usual read oracle on a finished stack: every query at every boundary vs the merged list H"""
+    w = World()
+    w.H = [(t, dict(r)) for t, r in H]
+    w.levels = [Level(k, False, m, None) for k, m in zip(kinds, marks)]
+    r = Real(None)
+    r.stack = [None] * (len(marks) - 1) + [top]
+    r.snap = []
+    tids = sorted({t for t, _ in H})
+    oids = sorted({o for _, recs in H for o in recs} | {9})
+    qs = ['last', 'iter']
+    for o in oids:
+        qs += ['lb %d %d' % (o, b) for t in tids for b in (t - 1, t, t + 1)]
+        qs += ['lb %d max' % o, 'load %d' % o, 'gt %d' % o, 'hist %d 50' % o]
+        qs += ['ls %d %d' % (o, t) for t in tids]
+    for q in qs:
+        try:
+            real = r.do(q)
+        except InfraError as e:
+            real = 'err:Other(%s)' % e
+        bad = judge(q, real, w.apply(q, real), w, None)
+        if bad:
+            return bad
+    return None
+
+
+def run_overlap_case(rng, tmp, ckind, mode, gate_at, nthreads_b=1):
+    """commits through one DemoStorage whose tids come from the clock; commit number `gate_at` of committer
+    A is overtaken by a complete commit of committer B between A's entry into tpc_begin and A's acquisition
+    of the commit lock.  [P] commit tids strictly increase in commit order, lastTransaction() is the last
+    commit's tid, and the finished stack reads as the merged history."""
+    import time
+    d = os.path.join(tmp, 'overlap')
+    shutil.rmtree(d, ignore_errors=True)
+    os.makedirs(d)
+    FAKE.queue = []
+    base = MappingStorage('obase')
+    commit(base, u64(real_tid(UNIT * 2)), [(1, 0, 1), (2, 0, 2), (3, 0, 3)])
+    H = [(2 * UNIT, {1: 1, 2: 2, 3: 3})]
+    changes = MappingStorage('ochanges') if ckind == 'mapping' else FileStorage(os.path.join(d, 'c.fs'), create=True)
+    realtime = time.time
+    clock = StepClock(mode, 10 if mode == 'step' else 1)
+    time.time = clock
+    order = []               # (committer, oid, data, tid) in the order the changes storage committed them
+    dc = [500]
+    bad = None
+    try:
+        demo = DemoStorage(base=base, changes=changes)
+        gate = GatedLock(demo._commit_lock)
+        demo._commit_lock = gate
+        snap = dump(base)
+
+        def do_commit(who, oid, positional_none=False):
+            dc[0] += 1
+            data = dc[0]
+            t = TransactionMetaData()
+            ser = demo.load(p64(oid))[1]
+            if positional_none:
+                demo.tpc_begin(t, None)
+            else:
+                demo.tpc_begin(t)
+            ser = demo.load(p64(oid))[1]      # the client of this committer reads inside its commit
+            demo.store(p64(oid), ser, pickle_of(data), '', t)
+            demo.tpc_vote(t)
+            demo.tpc_finish(t, lambda tid: order.append((who, oid, data, tid)))
+        for i in range(3):
+            if i == gate_at:
+                gate.action = lambda: [do_commit('B', 2) for _ in range(nthreads_b)]
+            do_commit('A', 1, positional_none=rng.random() < 0.3)
+        tids = [abs_tid(x[3]) for x in order]
+        for (w1, _, _, t1), (w2, _, _, t2) in zip(order, order[1:]):
+            if not t1 < t2:
+                bad = ('%s changes, clock %s: the commit of %s (tid %s) was written after the commit of %s '
+                       '(tid %s) although it entered tpc_begin first and waited for the commit lock: tids do '
+                       'not increase in commit order' % (ckind, mode, w2, abs_tid(t2), w1, abs_tid(t1)))
+                break
+        if not bad and demo.lastTransaction() != order[-1][3]:
+            bad = 'lastTransaction() is %s, the last commit has tid %s' % (
+                abs_tid(demo.lastTransaction()), tids[-1])
+        if not bad:
+            for who, oid, data, tid in order:
+                H.append((abs_tid(tid), {oid: data}))
+            bad = judge_history(demo, H, [0, 1], ['mapping', ckind])
+        if not bad and dump(base) != snap:
+            bad = 'the base changed during overlapping commits'
+        demo.close()
+    finally:
+        time.time = realtime
+        shutil.rmtree(d, ignore_errors=True)
+    return bad, dict(overlap=dict(ckind=ckind, mode=mode, gate_at=gate_at, b=nthreads_b),
+                     order=[(x[0], abs_tid(x[3])) for x in order])
+
+
+def run_sched_commit_case(tmp, ckind, seed, schedule=None):
+    """two committer threads on one DemoStorage under harness/sched.py (yield at every lock operation;
+    sticky schedules so that one committer can complete while the other is parked at the commit lock)"""
+    import sched
+    import time
+    d = os.path.join(tmp, 'schedc')
+    shutil.rmtree(d, ignore_errors=True)
+    os.makedirs(d)
+    FAKE.queue = []
+    realtime = time.time
+    time.time = StepClock('step', 10)
+    order = []
+    try:
+        with sched.installed():
+            base = MappingStorage('sbase')
+            commit(base, u64(real_tid(UNIT * 2)), [(1, 0, 1), (2, 0, 2)])
+            changes = MappingStorage('sch') if ckind == 'mapping' else FileStorage(os.path.join(d, 'c.fs'), create=True)
+            demo = DemoStorage(base=base, changes=changes)
+            s = sched.Scheduler(seed=seed, schedule=schedule, stickiness=0.93)
+
+            def committer(who, oid):
+                for i in range(2):
+                    t = TransactionMetaData()
+                    demo.tpc_begin(t)
+                    ser = demo.load(p64(oid))[1]
+                    demo.store(p64(oid), ser, pickle_of(100 * oid + i), '', t)
+                    demo.tpc_vote(t)
+                    demo.tpc_finish(t, lambda tid: order.append((who, oid, 100 * oid + i, tid)))
+            s.spawn('A', committer, 'A', 1)
+            s.spawn('B', committer, 'B', 2)
+            res = s.run(timeout=60)
+        if res['deadlock'] or res['errors']:
+            raise InfraError('scheduler run failed: deadlock=%s errors=%r' % (res['deadlock'], res['errors']))
+        bad = None
+        for (w1, _, _, t1), (w2, _, _, t2) in zip(order, order[1:]):
+            if not t1 < t2:
+                bad = ('%s changes: commit of %s got tid %s, written after the commit of %s with tid %s: tids do '
+                       'not increase in commit order' % (ckind, w2, abs_tid(t2), w1, abs_tid(t1)))
+                break
+        if not bad and demo.lastTransaction() != order[-1][3]:
+            bad = 'lastTransaction() is not the tid of the last commit'
+        if not bad:
+            H = [(2 * UNIT, {1: 1, 2: 2})] + [(abs_tid(t), {o: dv}) for _, o, dv, t in order]
+            bad = judge_history(demo, H, [0, 1], ['mapping', ckind])
+        demo.close()
+    finally:
+        time.time = realtime
+        shutil.rmtree(d, ignore_errors=True)
+    return bad, dict(sched_commit=dict(ckind=ckind, seed=seed, schedule=res['decisions']))
+
+
+# ---------------------------------------------------------------- close(): who owns what
+def is_open(st, oid=1):
+    try:
+        st.load(p64(oid))
+        st.lastTransaction()
+        return True
+    except POSException.POSKeyError:
+        return True
+    except Exception:
+        return False
+
+
+def run_close_case(rng, tmp):
+    """Discarding a pushed layer by close() (directly or through DB.close()) must leave everything below it
+    as it was -- same answers, still open, still able to commit; and close() closes the base / the changes
+    exactly when the documented flags say so (None: iff the storage was given by the caller)."""
+    import ZODB
+    d = os.path.join(tmp, 'closecase')
+    shutil.rmtree(d, ignore_errors=True)
+    os.makedirs(d)
+    FAKE.queue = []
+    n = [0]
+    log = []
+
+    def mk(kind):
+        n[0] += 1
+        return MappingStorage('m%d' % n[0]) if kind == 'mapping' else FileStorage(
+            os.path.join(d, 's%d.fs' % n[0]), create=True)
+    bad = None
+    opened = []
+    try:
+        # ---- stacking: push, write, close the pushed layer
+        bk, ck1 = rng.choice(['mapping', 'file']), rng.choice(['mapping', 'file'])
+        base = mk(bk)
+        opened.append(base)
+        commit(base, u64(real_tid(UNIT)), [(0, 0, 1), (1, 0, 2)])
+        demo1 = DemoStorage(base=base, changes=mk(ck1))
+        opened.append(demo1)
+        commit(demo1, u64(real_tid(2 * UNIT)), [(1, real_tid(UNIT), 3), (2, 0, 4)])
+        k = 2
+        stack = [base, demo1]
+        depth = rng.choice([1, 1, 2])
+        for _ in range(depth):
+            top = stack[-1].push(mk(rng.choice(['mapping', 'file'])) if rng.random() < 0.5 else None)
+            stack.append(top)
+            k += 1
+            commit(top, u64(real_tid(k * UNIT)), [(1, top.load(p64(1))[1], 10 + k), (5 + k, 0, 1)])
+        snaps = [dump(x) for x in stack[:-1]]
+        how = rng.choice(['close', 'db-close'])
+        log.append('stack %s/%s depth %d, top discarded by %s' % (bk, ck1, depth, how))
+        top = stack.pop()
+        if how == 'close':
+            top.close()
+        else:
+            db = ZODB.DB(top)
+            db.open().close()
+            db.close()
+        for i, lower in enumerate(stack):
+            name = 'base' if i == 0 else 'demo storage at level %d' % i
+            if not is_open(lower):
+                bad = 'after closing the pushed layer the %s under it is closed / unreadable' % name
+                break
+            try:
+                if dump(lower) != snaps[i]:
+                    bad = 'after closing the pushed layer the %s under it answers differently' % name
+                    break
+            except Exception as e:
+                bad = 'after closing the pushed layer reading the %s raises %s' % (name, type(e).__name__)
+                break
+        if not bad:
+            lower = stack[-1]
+            try:
+                k += 1
+                commit(lower, u64(real_tid(k * UNIT)), [(1, lower.load(p64(1))[1], 99)])
+                if data_id(lower.load(p64(1))[0]) != 99:
+                    bad = 'commit through the lower demo storage after the close is not read back'
+            except Exception as e:
+                bad = 'the demo storage under a closed pushed layer cannot commit: %s' % type(e).__name__
+            if not bad and dump(base) != snaps[0]:
+                bad = 'the base changed'
+        # ---- the flags
+        if not bad:
+            cb = rng.choice([None, True, False])
+            cc = rng.choice([None, True, False])
+            give_b, give_c = rng.random() < 0.8, rng.random() < 0.7
+            b2 = mk(rng.choice(['mapping', 'file'])) if give_b else None
+            c2 = mk(rng.choice(['mapping', 'file'])) if give_c else None
+            if b2 is not None:
+                opened.append(b2)
+                commit(b2, u64(real_tid(UNIT)), [(1, 0, 1)])
+            if c2 is not None:
+                opened.append(c2)
+            kw = {}
+            if cb is not None:
+                kw['close_base_on_close'] = cb
+            if cc is not None:
+                kw['close_changes_on_close'] = cc
+            d2 = DemoStorage(base=b2, changes=c2, **kw)
+            commit(d2, u64(real_tid(2 * UNIT)), [(1, (real_tid(UNIT) if give_b else z64), 5)])
+            inner_b, inner_c = d2.base, d2.changes
+            d2.close()
+            want_b = cb if cb is not None else give_b
+            want_c = cc if cc is not None else give_c
+            log.append('flags close_base_on_close=%r (base given: %s) close_changes_on_close=%r (changes given: %s)'
+                       % (cb, give_b, cc, give_c))
+            if is_open(inner_b) == want_b:
+                bad = ('DemoStorage(base=%s, close_base_on_close=%r).close() left the base %s; documented: %s'
+                       % ('<given>' if give_b else None, cb, 'open' if is_open(inner_b) else 'closed',
+                          'closed' if want_b else 'open'))
+            elif is_open(inner_c) == want_c:
+                bad = ('DemoStorage(changes=%s, close_changes_on_close=%r).close() left the changes %s; '
+                       'documented: %s' % ('<given>' if give_c else None, cc,
+                                           'open' if is_open(inner_c) else 'closed',
+                                           'closed' if want_c else 'open'))
+    except Exception as e:
+        import traceback
+        bad = bad or 'close scenario raised %s: %s' % (type(e).__name__, traceback.format_exc()[-500:])
+    finally:
+        for st in reversed(opened):
+            try:
+                st.close()
+            except Exception:
+                pass
+        shutil.rmtree(d, ignore_errors=True)
+    return bad, log
+
+
 # ---------------------------------------------------------------- main
 def run_case(ck, ops, model_out, tag):
     real, present = run_real(ops, ck.tmp)
@@ -1323,7 +1644,8 @@ def main(argv=None):
         if case.get('probe'):
             ncases = 0
             probes = case['probe']
-        elif case.get('blob_seed') is not None:
+        elif case.get('blob_seed') is not None or case.get('overlap') or case.get('sched_commit') \
+                or case.get('close_seed') is not None:
             ncases = 0
             probes = False
         else:
@@ -1383,6 +1705,44 @@ def main(argv=None):
         ck.case(['blob', blog], True, None)
         if bad:
             ck.violation('C16:blob', bad, dict(blob_seed=bs, log=blog[-12:]))
+    # ---- overlapping commits: the gate (deterministic) and scheduler samples
+    rcase = (rep.get('case') or {}) if ck.replay_path else {}
+    overlap = []
+    if rcase.get('overlap'):
+        overlap = [rcase['overlap']]
+    elif not ck.replay_path:
+        overlap = [dict(ckind=c, mode=m, gate_at=g, b=b) for c in ('mapping', 'file') for m in ('step', 'stall')
+                   for g in (0, 1, 2) for b in (1, 2)]
+    for oc in overlap:
+        bad, info = run_overlap_case(ck.rng, ck.tmp, oc['ckind'], oc['mode'], oc['gate_at'], oc.get('b', 1))
+        ck.count('overlap:%s:%s' % (oc['ckind'], oc['mode']))
+        ck.case(['overlap', info], True, None)
+        if bad:
+            ck.violation('C16:commit-tid-order', bad, info)
+    schedc = []
+    if rcase.get('sched_commit'):
+        schedc = [rcase['sched_commit']]
+    elif not ck.replay_path:
+        schedc = [dict(ckind=('mapping', 'file')[i % 2], seed=ck.rng.randrange(10 ** 9), schedule=None)
+                  for i in range(40 if not ck.thorough else 1500)]
+    for sc in schedc:
+        bad, info = run_sched_commit_case(ck.tmp, sc['ckind'], sc['seed'], sc.get('schedule'))
+        ck.count('sched-commit:' + sc['ckind'])
+        ck.case(['sched-commit', info], True, None)
+        if bad:
+            ck.violation('C16:commit-tid-order', bad, info)
+    # ---- close(): pushed layers and the ownership flags
+    close_seeds = []
+    if rcase.get('close_seed') is not None:
+        close_seeds = [rcase['close_seed']]
+    elif not ck.replay_path:
+        close_seeds = [ck.rng.randrange(10 ** 12) for _ in range(60 if not ck.thorough else 1200)]
+    for cs in close_seeds:
+        bad, clog = run_close_case(_random.Random(cs), ck.tmp)
+        ck.count('close:cases')
+        ck.case(['close', clog], True, None)
+        if bad:
+            ck.violation('C16:close', bad, dict(close_seed=cs, log=clog))
     # ---- excluded points, each on the real code with its own signature
     excluded = {}
     if probes:
